@@ -23,6 +23,9 @@ use unicode_width::UnicodeWidthChar;
 pub(crate) struct TextRenderer<D: TextDecorator> {
     subrender: Vec<SubRenderer<D>>,
     links: Vec<String>,
+    /// The footnote numbers of the links which have been started but not
+    /// finished yet (links can nest through a table cell).
+    open_links: Vec<usize>,
 }
 
 impl<D: TextDecorator> Deref for TextRenderer<D> {
@@ -45,6 +48,7 @@ impl<D: TextDecorator> TextRenderer<D> {
         TextRenderer {
             subrender: vec![subrenderer],
             links: Vec::new(),
+            open_links: Vec::new(),
         }
     }
 
@@ -53,6 +57,7 @@ impl<D: TextDecorator> TextRenderer<D> {
     /// Add link to global link collection
     pub fn start_link(&mut self, target: &str) -> Result<()> {
         self.links.push(target.to_string());
+        self.open_links.push(self.links.len());
         self.subrender.last_mut().unwrap().start_link(target)?;
         Ok(())
     }
@@ -60,8 +65,10 @@ impl<D: TextDecorator> TextRenderer<D> {
     pub fn end_link(&mut self) -> Result<()> {
         self.subrender.last_mut().unwrap().end_link()?;
 
+        // The number this link got when it started: other links may have
+        // been started (and finished) inside it since.
+        let footnote_num = self.open_links.pop().unwrap_or(self.links.len());
         if self.options.include_link_footnotes {
-            let footnote_num = self.links.len();
             self.add_inline_text(&format!("[{}]", footnote_num))?;
         }
         Ok(())
